@@ -18,6 +18,8 @@ def c09_classify(c, i):
     out = []
     if c[0] == "c09.es":
         return ["real-elasticsearch-output", "es-retry=" + c[1], "es-dq=" + c[2]]
+    if c[0] == "c09.overlap":
+        out.append("overlap(parked-retries)")
     if c[0] == "c09.esdq":
         return ["real-elasticsearch-output+blocking-dead-queue", "esdq-batches=" + c[3], "esdq-exhausted=%d" % sum(1 for x in c[4:] if x == "1")]
     try:
@@ -82,7 +84,7 @@ def fact_es_onerror(repo):
 CFG = {
     "manifest": {
         "text": "Proof: Lean theorems (Props/C09.lean) about RetriableBatcher.Out as a fold over oracle lists (send results, NextBackOff results; all retry settings incl. negative, with/without dead queue) and about the Batcher transition system: retries_ge_configured_partial, negative_never_given_up, no_commit_while_retrying, exhaust_with_dq (+ main commits nothing, dead queue commits once), exhaust_without_dq, exactly_one_way, error_callback_once; RetriesGeConfigured (any back-off behaviour) is refuted by a proved counterexample = the repaired MaxElapsedTime defect. Tied to the real RetriableBatcher / Batcher / Router by replaying boundary traces on every run.",
-        "note": "Trusted: Lean kernel + standard axioms; fdmodel; harness; cenkalti/backoff and the send function are oracles (their results are inputs of the model). 'Growing pauses' is a property of the back-off library (assumed). The main output of the harness is a harness plugin whose error callback mirrors the outputs' (checked as a source fact on elasticsearch.go). The commit ORDER between the dead queue and later main batches belongs to C01/C02.",
+        "note": "Trusted: Lean kernel + standard axioms; fdmodel; harness; cenkalti/backoff and the send function are oracles (their results are inputs of the model). The pause requested at every retry is observed (retry.next) and checked against the batch's own retry index; that the library's answers follow min*mult^n +-50% is the hypothesis BacksWellFormed of pauses_follow_own_schedule. The main output of the harness is a harness plugin whose error callback mirrors the outputs' (checked as a source fact on elasticsearch.go). The commit ORDER between the dead queue and later main batches belongs to C01/C02.",
         "technique": "Lean 4 induction over the oracle lists + Batcher invariants + trace correspondence on the real RetriableBatcher/Router with scripted failures",
     },
     "props_modules": ["FileD.Props.C09"],
@@ -92,14 +94,14 @@ CFG = {
     "facts": [("RetriableBatcher.Out statement order", fact_out_loop),
               ("Router.Fail forwards to the dead queue only when one exists", fact_router_fail),
               ("elasticsearch onError calls Router.Fail for every event", fact_es_onerror)],
-    "rule": "small scope first (retry -1..3 x dead-queue mode none/batching/sync x failures before success 0..5 or always), one always-failing batch through the real elasticsearch output behind a real Router (retry 0..2 x dead queue on/off x 1-4 events x kinds), 14 multi-batch runs of the real elasticsearch output with a dead-queue output that blocks on its first call (batch size 1-3, 3-6 batches, some exhausted, some succeeding), then random: workers 1..3, count 1..4 (+ byte limits), retry -1..3, retention 1-5 ms, scripts of 1-5 per-batch failure counts, 1-2 adders, dead-queue batcher workers/count 1..3, kind mixes; distinct = distinct case line; non-trivial = at least one failed send observed",
+    "rule": "small scope first (retry -1..3 x dead-queue mode none/batching/sync x failures before success 0..5 or always), one always-failing batch through the real elasticsearch output behind a real Router (retry 0..2 x dead queue on/off x 1-4 events x kinds), 12 parked-retry overlaps (c09.overlap: an always-failing batch whose retries are parked while later batches run Out on other workers; pauses checked against the batch's own retry index), 14 multi-batch runs of the real elasticsearch output with a dead-queue output that blocks on its first call (batch size 1-3, 3-6 batches, some exhausted, some succeeding), then random: workers 1..3, count 1..4 (+ byte limits), retry -1..3, retention 1-5 ms, scripts of 1-5 per-batch failure counts, 1-2 adders, dead-queue batcher workers/count 1..3, kind mixes; distinct = distinct case line; non-trivial = at least one failed send observed",
     "corr_name": "Retry.out on the observed oracle values + two Batcher.step? instances accept the observed boundary trace and compute the same tokens",
     "trusted_base": [
         "cenkalti/backoff NextBackOff and the send function are oracles: their observed results are inputs of the model",
         "batch identity of retry.next / onRetryError / Router.Fail events is recovered from the goroutine id (one Out call per worker goroutine at a time)",
         "Go runtime semantics of sync.Mutex, sync.Cond, channels, timers (modelled, not verified)",
     ],
-    "assumptions": ["pauses grow (exponential back-off of the library) — not observable in the trace, assumed",
+    "assumptions": ["a fresh ExponentialBackOff answers within +-50% of min*mult^n (BacksWellFormed); checked on every observed pause",
                     "the dead queue's tail is flushed by its heartbeat (C08 staleness); observed in heartbeat ticks"],
     "chunk": 200,
     "timeout": 1200,
